@@ -219,6 +219,7 @@ def runCase (c : Sexp) : String := Id.run do
       out := out ++ " rawfns=" ++ showFuncs (p.raw.funcs.map (fun f => ⟨f.name, f.params, encodeAll f.code⟩))
       out := out ++ " main=" ++ hexOfBytes p.machine.main
       out := out ++ " fns=" ++ showFuncs p.machine.funcs
+    if Stmt.vlos p.ast then out := out ++ " vlo=1"
     if shows.contains "wf" then
       let isStr := p.raw.consts.map (fun v => v.isType .STRING)
       let w1 := WF.check isStr (encodeAll p.raw.main) (p.raw.funcs.map (fun f => encodeAll f.code))
